@@ -488,6 +488,13 @@ def sdss_specobjid(plate, fiber, mjd, run2d, line=None, index=None):
     if isinstance(mjd, int):
         mjd = np.array([mjd]) - 50000
     else:
+        mjd = np.asarray(mjd)
+        if mjd.dtype.kind in 'iu':
+            #
+            # An MJD below 50000 must come out negative, not wrap around
+            # in a narrow or unsigned type.
+            #
+            mjd = mjd.astype(np.int64)
         mjd = mjd - 50000
     if isinstance(run2d, str):
         try:
